@@ -288,3 +288,17 @@ func GenProg(r *Rand, cfg GenCfg, tag string) *Prog {
 	}
 	return p
 }
+
+// sampled says whether member i of an enumerated family is taken when only one in `every` is:
+// by a hash of the index, not the index itself, because enumeration order is regular
+// (e.g. a boolean field alternates) and a modulus would take the same kind of member every time.
+func sampled(i int, seed int64, every int) bool {
+	if every <= 1 {
+		return true
+	}
+	h := uint64(i)*0x9E3779B97F4A7C15 + uint64(seed)*0xBF58476D1CE4E5B9
+	h ^= h >> 31
+	h *= 0x94D049BB133111EB
+	h ^= h >> 29
+	return h%uint64(every) == 0
+}
